@@ -15,7 +15,7 @@ import (
 
 func init() { Registry["C16"] = runC16 }
 
-const explanationC16 = "Decides structural necessary conditions of C16 on http/mux.go through SSA path tables (loops unrolled once): (R16.1) the wildcard table is keyed method+\"::\"+pattern with the same separator and operand order at its store (Handle) and both loads (Vars, resolveWildcard), and the stored pattern is the rewritten one that is also registered with the router; (R16.2) every value placed in the map returned by Vars is unescape(params.Values[i]) and unescape falls back to its input on error; (R16.3) resolveWildcard re-inserts \"/{*name}\" after trimming exactly the length of the \"/*\" replacement; (R16.4) Handle and Use mutate the muxer only under the mutex (Lock first, deferred Unlock); (R16.5) the not-found handler negotiates an encoder, writes 404, then encodes an error response, and is installed with the first Handle; (R16.6) route probes (Routes.Match) outside ensureContext use a fresh routing context so that the recorded pattern and parameters of the request are not disturbed; (R16.7) Use appends to the pending list when one exists and otherwise forwards to the router, Handle flushes every pending middleware into the router and clears the list before registering the route, and every returning path of Handle registers the route exactly once; (R16.8) the constructor gives Handle's first-registration sentinel a non-nil value; (R16.9) the pre-routing probe matches the bare request path. shared R15.1–R15.3 (the encoder that writes the 404 body announces the media type it encodes). (R16.10) the error body written for unmatched requests carries each field of the error under its own name in every encoding (shared with C18/R18.4). (R16.11) the design side and the muxer recognise wildcard names with the same regular expression (compared in regexp/syntax canonical form). NOT decided: chi's matching algorithm, whether capture is the inverse of URL construction for all strings (double percent-decoding depends on chi's RawPath/Path choice), client-side path building (delegated to net/url)."
+const explanationC16 = "Decides structural necessary conditions of C16 on http/mux.go through SSA path tables (loops unrolled once): (R16.1) the wildcard table is keyed method+\"::\"+pattern with the same separator and operand order at its store (Handle) and both loads (Vars, resolveWildcard), and the stored pattern is the rewritten one that is also registered with the router; (R16.2) every value placed in the map returned by Vars is unescape(params.Values[i]) when the URL has a RawPath (the router matched the escaped path) and the router's value itself otherwise, and unescape falls back to its input on error; (R16.3) resolveWildcard re-inserts \"/{*name}\" after trimming exactly the length of the \"/*\" replacement; (R16.4) Handle and Use mutate the muxer only under the mutex (Lock first, deferred Unlock); (R16.5) the not-found handler negotiates an encoder, writes 404, then encodes an error response, and is installed with the first Handle; (R16.6) route probes (Routes.Match) outside ensureContext use a fresh routing context so that the recorded pattern and parameters of the request are not disturbed; (R16.7) Use appends to the pending list when one exists and otherwise forwards to the router, Handle flushes every pending middleware into the router and clears the list before registering the route, and every returning path of Handle registers the route exactly once; (R16.8) the constructor gives Handle's first-registration sentinel a non-nil value; (R16.9) the pre-routing probe matches the bare request path. shared R15.1–R15.3 (the encoder that writes the 404 body announces the media type it encodes). (R16.10) the error body written for unmatched requests carries each field of the error under its own name in every encoding (shared with C18/R18.4). (R16.11) the design side and the muxer recognise wildcard names with the same regular expression (compared in regexp/syntax canonical form). NOT decided: chi's matching algorithm, whether capture is the inverse of URL construction for all strings (double percent-decoding depends on chi's RawPath/Path choice), client-side path building (delegated to net/url)."
 
 const reRewritten = `\(\*regexp\.Regexp\)\.ReplaceAllString\(http\.wildPath, p2, "(/\*)"\)`
 
@@ -208,8 +208,28 @@ func r16Vars(c *an.Ctx) {
 					stores++
 					k := strings.Index(e.Term, " = ")
 					val := e.Term[k+3:]
-					if !regexp.MustCompile(`^http\.unescape\(.*\.Values\[.*\]\)$`).MatchString(val) {
+					// the router matched the escaped path iff the URL has a RawPath: the value is decoded in that case
+					// and is the router's (already decoded) value otherwise
+					escaped, known := false, false
+					for _, a := range p.Atoms {
+						switch a.Term {
+						case `(p1.URL.RawPath == "")`:
+							escaped, known = !a.Val, true
+						case `(p1.URL.RawPath != "")`:
+							escaped, known = a.Val, true
+						}
+					}
+					isDecoded := regexp.MustCompile(`^http\.unescape\(.*\.Values\[.*\]\)$`).MatchString(val)
+					isRaw := regexp.MustCompile(`^(zero:)?(local:)?[\w.]*\.?Values\[.*\]$`).MatchString(val)
+					switch {
+					case !known && isDecoded:
+						probs = append(probs, "a path variable is stored as "+val+" whether or not the URL has a RawPath: when it has none the router matched the decoded path and the value is decoded a second time (\"%2541\" arrives as \"A\")")
+					case !known:
 						probs = append(probs, "a path variable is stored as "+val+", not as unescape(params.Values[i])")
+					case escaped && !isDecoded:
+						probs = append(probs, "with a RawPath the router's value is still escaped, yet the variable is stored as "+val)
+					case !escaped && !isRaw:
+						probs = append(probs, "without a RawPath the router's value is already decoded, yet the variable is stored as "+val)
 					}
 					if strings.Contains(e.Term[:k], "p0.wildcards[") {
 						wildStores++
@@ -227,7 +247,7 @@ func r16Vars(c *an.Ctx) {
 			probs = append(probs, fmt.Sprintf("only %d variable stores (%d through the wildcard table) found", stores, wildStores))
 		}
 		probs = dedupStrings(probs)
-		c.Check(len(probs) == 0, "R16.2", f.Name+"#unescape-once", f.Decl.Pos(), fmt.Sprintf("all %d stores into the result are unescape(params.Values[i]) (named and wildcard variables alike)", stores), strings.Join(probs, " | "))
+		c.Check(len(probs) == 0, "R16.2", f.Name+"#unescape-once", f.Decl.Pos(), fmt.Sprintf("all %d stores into the result are unescape(params.Values[i]) when the URL has a RawPath and params.Values[i] otherwise (named and wildcard variables alike)", stores), strings.Join(probs, " | "))
 		keyProbs = dedupStrings(keyProbs)
 		c.Check(len(keyProbs) == 0, "R16.1", f.Name+"#table-key", f.Decl.Pos(), `wildcard name looked up under r.Method+"::"+ctx.RoutePattern()`, strings.Join(keyProbs, " | "))
 	}
